@@ -628,7 +628,9 @@ def _hash(value):
                 result ^= _hash(pair)
             return result
         else:
-            raise
+            # Any other unhashable value (a set, a bytearray, ...). Equal values
+            # have the same type, and "==" tells them apart.
+            return hash(type(value))
 
 
 class _Metadata:
